@@ -3,11 +3,10 @@
    (NoFuel), fails only with the code -1, and a successful result respects the size declared in the
    header, the element size, the maximum and the capacity of a view.
 
-   One assumption about the environment is explicit (alloc_ok): when the output array is an OWNER and
-   no maximum is given (max_original_size = 0), sc_array_resize allocates as many bytes as the header
-   of the data declares (any number below 2^64).  The C code aborts when that allocation fails; the
-   model has no allocation failure, so the theorems assume that the object that was allocated is
-   smaller than BIG = 2^62 bytes.  For views and for 0 < max_original_size < BIG nothing is assumed. *)
+   The theorems hold for every input text below DATA_MAX = 2^52 bytes, every kind of output array and
+   every maximum: the guard of commit 5c6a588 (declared size / 1032 <= decoded bytes) keeps every
+   accepted declared size below BIG = 2^62, so that sc_array_resize really provides that many bytes.
+   The code before that commit is refuted by a concrete text (decode_old_refuted). *)
 From Coq Require Import ZArith List Bool Lia.
 From ScV Require Import Base.CInt Gen.Codec C06.Res C06.ResProofs C06.B64Model C06.B64Proofs
      C06.StoredModel C06.AdlerProofs C07.PuffModel C07.PuffSafe C07.PuffHuffman C07.DecodeModel.
@@ -222,6 +221,12 @@ End Zlib.
 (* ---- sc_io_decode ---------------------------------------------------------------------------------- *)
 Definition out_ok (o : outdesc) : Prop := 0 < o_esz o /\ 0 <= o_cnt o /\ o_cnt o * o_esz o < BIG.
 
+(* bound on the size of the input text: BIG / 1024 = 2^52.  With the guard of commit 5c6a588
+   (declared size / 1032 <= decoded bytes) it keeps every declared size that is accepted below BIG. *)
+Definition DATA_MAX : Z := 4503599627370496.
+Lemma DATA_MAX_eq : DATA_MAX = BIG / 1024.  Proof. reflexivity. Qed.
+Lemma DATA_MAX_BIG : DATA_MAX < BIG.  Proof. reflexivity. Qed.
+
 (* the base64 part of sc_io_decode: all lines into the array `compressed` *)
 Definition dec_all (data : list Z) : res (list Z * Z) :=
   dec_lines (Z.to_nat (dec_base64_lines (len data))) (len data) data 0
@@ -232,14 +237,13 @@ Definition dec_all (data : list Z) : res (list Z * Z) :=
 Definition hdr_size (data : list Z) : Z :=
   match dec_all data with Ok (comp, _) => be_value (firstn 8 comp) 0 | _ => 0 end.
 
-(* the environment: an owner that is resized without a maximum holds hdr_size bytes afterwards;
-   an object in memory is smaller than BIG (sc_array_resize aborts when the allocation fails) *)
-Definition alloc_ok (data : list Z) (out : outdesc) (maxsz : Z) : Prop :=
-  o_owner out = true -> 0 < maxsz < BIG \/ hdr_size data < BIG.
+(* at most 57 bytes for every 78 characters of text *)
+Definition all_post (E : Z) (r : list Z * Z) : Prop :=
+  let '(comp, oc) := r in oc = len comp /\ bytes comp /\ 78 * len comp <= 57 * (E + 76).
 
 Lemma dec_all_safe data : 1 <= len data < BIG ->
   dec_guard_short (len data) (dec_base64_lines (len data)) = false ->
-  res_safe (fun r => lines_post (BIG - 1) r) (dec_all data).
+  res_safe (fun r => all_post (len data) r) (dec_all data).
 Proof.
   intros HE Hg. unfold dec_all. rewrite lines_eq in * by exact HE.
   set (E := len data) in *. set (L := (E + 76) / 78) in *.
@@ -251,8 +255,8 @@ Proof.
   specialize (H ltac:(lia) ltac:(lia) ltac:(unfold BIG; lia) ltac:(lia) ltac:(lia) ltac:(lia) ltac:(unfold BIG; lia)).
   specialize (H (len_repeat 0 76) eq_refl ltac:(lia) eq_refl bytes_nil eq_refl).
   destruct (dec_lines (Z.to_nat L) E data 0 (E - 1 - 2 * L) 0 L [] 0 (57 * L) (repeat 0 76) d_init) as [[comp oc]| | |];
-    cbn [res_safe lines_post] in *; auto.
-  destruct H as (H1 & H2 & H3). split; [exact H1|]. split; [exact H2|]. unfold BIG. lia.
+    cbn [res_safe lines_post all_post] in *; auto.
+  destruct H as (H1 & H2 & H3). split; [exact H1|]. split; [exact H2|]. lia.
 Qed.
 
 Definition decode_post (out : outdesc) (maxsz : Z) (r : res (Z * list Z)) : Prop :=
@@ -270,26 +274,24 @@ Definition OWNER_MAX : Z := 9223372036854775808.
 Lemma owner_capacity_id size : size <= OWNER_MAX -> owner_capacity size = size.
 Proof. unfold owner_capacity, OWNER_MAX. intros H. destruct (Z.ltb_spec 9223372036854775808 size); lia. Qed.
 
-(* general form: capP is the condition that the decompressor puts on the capacity of the destination *)
+(* general form: capP is the condition that the decompressor puts on the capacity of the destination;
+   every capacity that occurs is below BIG *)
 Theorem decode_with_safe_lim (capP : Z -> Prop) unc data out maxsz :
-  unc_safe_lim capP unc -> bytes data -> len data < BIG -> out_ok out -> 0 <= maxsz ->
-  ((maxsz = 0 \/ hdr_size data <= maxsz) ->
-   (o_owner out = true -> hdr_size data <= OWNER_MAX) /\
-   capP (if o_owner out then hdr_size data else o_cnt out * o_esz out)) ->
+  unc_safe_lim capP unc -> (forall c, 0 <= c < BIG -> capP c) ->
+  bytes data -> len data < DATA_MAX -> out_ok out -> 0 <= maxsz ->
   decode_post out maxsz (sc_decode_with unc data out maxsz).
 Proof.
-  intros Hunc Hb HE (Hesz & Hcnt & Hcap) Hmax Halloc. unfold sc_decode_with, decode_post.
-  pose proof (len_nonneg data) as Hn.
+  intros Hunc HcapP Hb HE (Hesz & Hcnt & Hcap) Hmax. unfold sc_decode_with, decode_post.
+  unfold DATA_MAX in HE. pose proof (len_nonneg data) as Hn.
   destruct (Z.eqb_spec (len data) 0) as [|Hne]; [reflexivity|].
   rewrite rd_ok by lia. cbn [bind].
   match goal with |- context [if negb ?X then _ else _] => destruct X end; cbn [negb]; [|reflexivity].
   destruct (dec_guard_short (len data) (dec_base64_lines (len data))) eqn:Hg; [reflexivity|].
-  pose proof (dec_all_safe data ltac:(lia) Hg) as Hall.
-  unfold hdr_size in Halloc.
+  pose proof (dec_all_safe data ltac:(unfold BIG; lia) Hg) as Hall.
   change (dec_lines (Z.to_nat (dec_base64_lines (len data))) (len data) data 0
             (dec_irem (len data) (dec_base64_lines (len data))) 0 (dec_base64_lines (len data)) [] 0
             (dec_compressed_size (dec_base64_lines (len data))) (repeat 0 76) d_init) with (dec_all data).
-  destruct (dec_all data) as [[comp ocnt]| | |]; cbn [res_safe lines_post bind] in *; auto.
+  destruct (dec_all data) as [[comp ocnt]| | |]; cbn [res_safe all_post bind] in *; auto.
   destruct Hall as (Hoc & Hcb & Hcl).
   destruct (Z.ltb_spec ocnt 9) as [|H9]; [reflexivity|].
   rewrite rd_ok by lia. cbn [bind].
@@ -298,6 +300,9 @@ Proof.
   change (firstn (Z.to_nat 8) (skipn (Z.to_nat 0) comp)) with (firstn 8 comp).
   pose proof (be_value_range (firstn 8 comp) 0 ltac:(unfold M64; lia)) as Hsz.
   set (size := be_value (firstn 8 comp) 0) in *.
+  (* the guard of the repair: size / 1032 <= ocnt, so the declared size is below BIG *)
+  unfold dec_guard_ratio. destruct (Z.ltb_spec ocnt (size / 1032)) as [|Hratio]; [reflexivity|].
+  assert (Hbig : size < BIG) by (unfold BIG; lia).
   destruct (Z.eqb_spec (size mod o_esz out) 0) as [Hmod|]; cbn [negb]; [|reflexivity].
   destruct ((0 <? maxsz) && (maxsz <? size)) eqn:Hmx; [reflexivity|].
   assert (Hmx' : maxsz = 0 \/ size <= maxsz).
@@ -316,9 +321,9 @@ Proof.
   set (nil := o_owner out && (size =? 0)).
   specialize (Hunc src size cap nil Hsb Hsl ltac:(lia)).
   assert (G1 : nil = false -> size <= cap /\ capP cap).
-  { intros _. destruct (Halloc Hmx') as [Ha1 Ha2]. unfold cap. destruct (o_owner out).
-    - rewrite owner_capacity_id by now apply Ha1. split; [lia|exact Ha2].
-    - split; [now apply Hvw'|exact Ha2]. }
+  { intros _. unfold cap. destruct (o_owner out).
+    - rewrite owner_capacity_id by (unfold OWNER_MAX; lia). split; [lia|apply HcapP; lia].
+    - split; [now apply Hvw'|apply HcapP; nia]. }
   assert (G2 : nil = true -> size = 0 /\ 0 <= cap).
   { unfold nil, cap. intros G. apply andb_true_iff in G. destruct G as [Go G]. apply Z.eqb_eq in G.
     rewrite Go, G. split; [reflexivity|]. rewrite owner_capacity_id by (unfold OWNER_MAX; lia). lia. }
@@ -330,74 +335,31 @@ Proof.
   intros Ho. specialize (Hvw' Ho). lia.
 Qed.
 
+(* for every input text, every kind of output array and every maximum *)
 Theorem decode_with_safe unc data out maxsz :
-  unc_safe unc -> bytes data -> len data < BIG -> out_ok out -> 0 <= maxsz -> alloc_ok data out maxsz ->
+  unc_safe unc -> bytes data -> len data < DATA_MAX -> out_ok out -> 0 <= maxsz ->
   decode_post out maxsz (sc_decode_with unc data out maxsz).
 Proof.
-  intros Hunc Hb HE Hout Hmax Halloc.
+  intros Hunc Hb HE Hout Hmax.
   apply (decode_with_safe_lim (fun cap => cap < BIG)); auto; try (now apply unc_safe_is_lim).
-  intros Hm. unfold OWNER_MAX. destruct (o_owner out) eqn:Ho.
-  - assert (hdr_size data < BIG) by (destruct (Halloc Ho); lia). unfold BIG in *. split; [intros _|]; lia.
-  - split; [discriminate|apply Hout].
+  intros c Hc. lia.
 Qed.
-
-(* a view, or a maximum below BIG: no assumption on the environment *)
-Corollary decode_with_safe_view unc data out maxsz :
-  unc_safe unc -> bytes data -> len data < BIG -> out_ok out -> 0 <= maxsz -> o_owner out = false ->
-  decode_post out maxsz (sc_decode_with unc data out maxsz).
-Proof. intros; apply decode_with_safe; auto. intros Ho; congruence. Qed.
-
-Corollary decode_with_safe_max unc data out maxsz :
-  unc_safe unc -> bytes data -> len data < BIG -> out_ok out -> 0 < maxsz < BIG ->
-  decode_post out maxsz (sc_decode_with unc data out maxsz).
-Proof. intros; apply decode_with_safe; auto; [lia|]. intros _; now left. Qed.
 
 (* the build without zlib *)
 Theorem decode_safe data out maxsz :
-  bytes data -> len data < BIG -> out_ok out -> 0 <= maxsz -> alloc_ok data out maxsz ->
+  bytes data -> len data < DATA_MAX -> out_ok out -> 0 <= maxsz ->
   decode_post out maxsz (sc_decode data out maxsz).
 Proof. intros; unfold sc_decode; apply decode_with_safe; auto. apply nonuncompress_safe. Qed.
 
-Corollary decode_safe_view data out maxsz :
-  bytes data -> len data < BIG -> out_ok out -> 0 <= maxsz -> o_owner out = false ->
-  decode_post out maxsz (sc_decode data out maxsz).
-Proof. intros; unfold sc_decode; apply decode_with_safe_view; auto. apply nonuncompress_safe. Qed.
-
-Corollary decode_safe_max data out maxsz :
-  bytes data -> len data < BIG -> out_ok out -> 0 < maxsz < BIG ->
-  decode_post out maxsz (sc_decode data out maxsz).
-Proof. intros; unfold sc_decode; apply decode_with_safe_max; auto. apply nonuncompress_safe. Qed.
-
-(* the build with zlib: uncompress needs `size` bytes at the destination, which an owner without a
-   maximum has only when the declared size is at most 2^63 (OWNER_MAX); under alloc_ok it is *)
+(* the build with zlib *)
 Section ZlibDecode.
   Variable inflate : list Z -> Z -> option (list Z).
   Hypothesis inflate_bytes : forall src size d, inflate src size = Some d -> bytes d.
 
   Theorem decode_zlib_safe data out maxsz :
-    bytes data -> len data < BIG -> out_ok out -> 0 <= maxsz -> alloc_ok data out maxsz ->
+    bytes data -> len data < DATA_MAX -> out_ok out -> 0 <= maxsz ->
     decode_post out maxsz (sc_decode_with (zlib_unc inflate) data out maxsz).
   Proof. intros. apply decode_with_safe; auto. apply zlib_unc_safe. exact inflate_bytes. Qed.
-
-  (* sharper: the only thing the zlib build needs is that the owner really got `size` bytes *)
-  Theorem decode_zlib_safe_owner_max data out maxsz :
-    bytes data -> len data < BIG -> out_ok out -> 0 <= maxsz ->
-    (o_owner out = true -> hdr_size data <= OWNER_MAX) ->
-    decode_post out maxsz (sc_decode_with (zlib_unc inflate) data out maxsz).
-  Proof.
-    intros. apply (decode_with_safe_lim (fun _ => True)); auto.
-    apply zlib_unc_safe_lim. exact inflate_bytes.
-  Qed.
-
-  Corollary decode_zlib_safe_view data out maxsz :
-    bytes data -> len data < BIG -> out_ok out -> 0 <= maxsz -> o_owner out = false ->
-    decode_post out maxsz (sc_decode_with (zlib_unc inflate) data out maxsz).
-  Proof. intros. apply decode_with_safe_view; auto. apply zlib_unc_safe. exact inflate_bytes. Qed.
-
-  Corollary decode_zlib_safe_max data out maxsz :
-    bytes data -> len data < BIG -> out_ok out -> 0 < maxsz < BIG ->
-    decode_post out maxsz (sc_decode_with (zlib_unc inflate) data out maxsz).
-  Proof. intros. apply decode_with_safe_max; auto. apply zlib_unc_safe. exact inflate_bytes. Qed.
 End ZlibDecode.
 
 (* ---- the output is consistent with the header that sc_io_decode_info reports ------------------------ *)
@@ -494,6 +456,7 @@ Proof.
   destruct (slice_cases comp 0 8) as [(_ & _ & _ & Es)|[_ Es]]; rewrite Es in H; [|discriminate]. cbn [bind] in H.
   change (firstn (Z.to_nat 8) (skipn (Z.to_nat 0) comp)) with (firstn 8 comp) in H.
   set (size := be_value (firstn 8 comp) 0) in *.
+  destruct (dec_guard_ratio size ocnt); [discriminate|].
   destruct (Z.eqb_spec (size mod o_esz out) 0) as [Hmod|]; cbn [negb] in H; [|discriminate].
   destruct (Z.ltb_spec 0 maxsz); destruct (Z.ltb_spec maxsz size); cbn [andb] in H; try discriminate;
   (destruct (negb (o_owner out) && (u64 (o_cnt out * o_esz out) <? size)); [discriminate|];
@@ -511,7 +474,7 @@ Proof.
   intros HE Hesz Hd Hi. pose proof (len_nonneg data) as Hn.
   destruct (decode_ok_inv _ _ _ _ _ _ Hd) as (Hne & Hg & comp & ocnt & Ha & H9 & Hfc & Hnn & Hmod & _ & _).
   destruct (dec_all_first data comp ocnt ltac:(lia) Hg Ha H9) as (m & rest & Hcomp & Hlen & Hm & H12).
-  pose proof (dec_all_safe data ltac:(lia) Hg) as Hs. rewrite Ha in Hs. cbn [res_safe lines_post] in Hs.
+  pose proof (dec_all_safe data ltac:(lia) Hg) as Hs. rewrite Ha in Hs. cbn [res_safe all_post] in Hs.
   destruct Hs as (Hoc & _ & _).
   (* the side of decode_info *)
   unfold sc_decode_info in Hi. destruct (Z.ltb_spec (len data) 12); [lia|].
@@ -549,30 +512,27 @@ Qed.
 (* with the contract of the decompressor: the size that sc_io_decode_info reports is the number of
    bytes that sc_io_decode delivers, and the format character is 'z' *)
 Theorem decode_consistent_with_info_lim (capP : Z -> Prop) unc data out maxsz n b sz fc :
-  unc_safe_lim capP unc -> bytes data -> len data < BIG -> out_ok out -> 0 <= maxsz ->
-  ((maxsz = 0 \/ hdr_size data <= maxsz) ->
-   (o_owner out = true -> hdr_size data <= OWNER_MAX) /\
-   capP (if o_owner out then hdr_size data else o_cnt out * o_esz out)) ->
+  unc_safe_lim capP unc -> (forall c, 0 <= c < BIG -> capP c) ->
+  bytes data -> len data < DATA_MAX -> out_ok out -> 0 <= maxsz ->
   sc_decode_with unc data out maxsz = Ok (n, b) -> sc_decode_info data = Ok (sz, fc) ->
   sz = len b /\ fc = 122.
 Proof.
-  intros Hunc Hb HE Hout Hmax Hcap Hd Hi.
-  pose proof (decode_with_safe_lim capP unc data out maxsz Hunc Hb HE Hout Hmax Hcap) as Hs.
+  intros Hunc Hcap Hb HE Hout Hmax Hd Hi.
+  pose proof (decode_with_safe_lim capP unc data out maxsz Hunc Hcap Hb HE Hout Hmax) as Hs.
   rewrite Hd in Hs. cbn [decode_post] in Hs. destruct Hs as (_ & Hlen & _).
-  destruct (decode_info_consistent unc data out maxsz n b sz fc HE (proj1 Hout) Hd Hi) as (H1 & _ & H2).
+  assert (HE' : len data < BIG) by (pose proof DATA_MAX_BIG; lia).
+  destruct (decode_info_consistent unc data out maxsz n b sz fc HE' (proj1 Hout) Hd Hi) as (H1 & _ & H2).
   split; [congruence|exact H2].
 Qed.
 
 Theorem decode_consistent_with_info unc data out maxsz n b sz fc :
-  unc_safe unc -> bytes data -> len data < BIG -> out_ok out -> 0 <= maxsz -> alloc_ok data out maxsz ->
+  unc_safe unc -> bytes data -> len data < DATA_MAX -> out_ok out -> 0 <= maxsz ->
   sc_decode_with unc data out maxsz = Ok (n, b) -> sc_decode_info data = Ok (sz, fc) ->
   sz = len b /\ fc = 122.
 Proof.
-  intros Hunc Hb HE Hout Hmax Halloc.
+  intros Hunc Hb HE Hout Hmax.
   apply (decode_consistent_with_info_lim (fun cap => cap < BIG)); auto; try (now apply unc_safe_is_lim).
-  intros Hm. unfold OWNER_MAX. destruct (o_owner out) eqn:Ho.
-  - assert (hdr_size data < BIG) by (destruct (Halloc Ho); lia). unfold BIG in *. split; [intros _|]; lia.
-  - split; [discriminate|apply Hout].
+  intros c Hc. lia.
 Qed.
 
 Section ZlibConsistent.
@@ -610,10 +570,11 @@ Proof. vm_compute. reflexivity. Qed.
 Example ex_info : sc_decode_info ex_data = Ok (3, 122) /\ hdr_size ex_data = 3.
 Proof. vm_compute. split; reflexivity. Qed.
 
-(* ---- without the guard the model does leave its buffer (defect: declared size over 2^63) ------------- *)
+(* ---- regression: the code before commit 5c6a588 does leave its buffer ------------------------------- *)
 (* armor 61 ([128;0;0;0;0;0;0;8] ++ [122] ++ [120;218;75;76;4;0;1;37;0;195]): header size 2^63 + 8,
-   format 'z', the zlib stream of "aa".  An owner is resized to ONE byte (owner_capacity) and the
-   decompressor writes the second byte behind it. *)
+   format 'z', the zlib stream of "aa".  In the old code an owner is resized to ONE byte
+   (owner_capacity) and the decompressor writes the second byte behind it; the repaired code refuses
+   the text because 2^63 + 8 bytes cannot come out of 10 bytes of compressed data. *)
 Definition refute_text : list Z :=
   [103; 65; 65; 65; 65; 65; 65; 65; 65; 65; 104; 54; 101; 78; 112; 76; 84; 65; 81; 65; 65; 83; 85; 65;
    119; 119; 61; 61; 61; 10; 0].
@@ -622,25 +583,21 @@ Definition refute_out : outdesc := mkOut true 1 0.
 Lemma refute_text_hdr : hdr_size refute_text = 9223372036854775816.
 Proof. vm_compute. reflexivity. Qed.
 
-Lemma refute_not_alloc_ok : ~ alloc_ok refute_text refute_out 0.
+Theorem decode_old_refuted :
+  exists data out, bytes data /\ len data < DATA_MAX /\ out_ok out /\ sc_decode_old data out 0 = Oob.
 Proof.
-  intros H. destruct (H eq_refl) as [H1|H1]; [lia|].
-  rewrite refute_text_hdr in H1. unfold BIG in H1. lia.
-Qed.
-
-Theorem decode_unguarded_refuted :
-  exists data out, bytes data /\ len data < BIG /\ out_ok out /\ ~ alloc_ok data out 0 /\
-                   sc_decode data out 0 = Oob.
-Proof.
-  exists refute_text, refute_out. split; [|split; [|split; [|split]]].
+  exists refute_text, refute_out. split; [|split; [|split]].
   - unfold refute_text, bytes. repeat (constructor; [unfold byte; lia|]). constructor.
   - vm_compute. reflexivity.
   - unfold out_ok, refute_out, BIG; cbn. lia.
-  - exact refute_not_alloc_ok.
   - vm_compute. reflexivity.
 Qed.
 
-(* the build with zlib: uncompress is handed a one-byte destination for 2^63 + 8 bytes of output *)
-Theorem decode_zlib_unguarded_refuted inflate :
-  sc_decode_with (zlib_unc inflate) refute_text refute_out 0 = Oob.
+(* the build with zlib: uncompress was handed a one-byte destination for 2^63 + 8 bytes of output *)
+Theorem decode_zlib_old_refuted inflate :
+  sc_decode_with_old (zlib_unc inflate) refute_text refute_out 0 = Oob.
+Proof. vm_compute. reflexivity. Qed.
+
+(* the repaired code refuses the witness *)
+Theorem decode_new_rejects_witness : sc_decode refute_text refute_out 0 = Err (-1).
 Proof. vm_compute. reflexivity. Qed.
